@@ -12,7 +12,7 @@ from torchphysics.utils.user_fun import UserFunction
 from symtorch.harness import Case
 from oracle import sets as O
 from . import shapes as SH
-from .c18 import minmax_mode
+from .c18 import minmax_mode, req
 
 META = dict(
     level="model_checking",
@@ -274,7 +274,7 @@ def _eq_cells(L, a, b, name):
         if isinstance(x, bool) or isinstance(y, bool) or (hasattr(x, "sort") and str(x.sort()) == "Bool"):
             yield "%s[%d]" % (name, i), L.Iff(x, y)
         else:
-            yield "%s[%d]" % (name, i), L.eq(x, y)
+            yield "%s[%d]" % (name, i), req(L, x, y)
 
 
 def _target(sh, dom, which):
@@ -370,7 +370,7 @@ def agree_case(name, mk, info, fix, what, k, form="0d", which="domain", order="c
                 return
             fa, fb = _flat(o["a"]), _flat(o["b"])
             for i in range(len(fb)):
-                yield "volume_eq[row%d]" % i, L.eq(fa[min(i, len(fa) - 1)], fb[i])
+                yield "volume_eq[row%d]" % i, req(L, fa[min(i, len(fa) - 1)], fb[i])
             return
         if what in ("random", "grid"):
             yield "same_random_calls", bool(o["draws"])
@@ -662,7 +662,7 @@ def product_own_variable_case(dependent, what):
             yield "sample_space", o["names"] == ["x", "t"]
             if o["names"] == ["x", "t"]:
                 p = o["pts"][0]
-                yield "sample_t_is_fixed_value", L.eq(p[2], o["el"])
+                yield "sample_t_is_fixed_value", req(L, p[2], o["el"])
                 yield "sample_x_in_first_factor", o["a"].oset.closure(p[:2], {"t": [o["el"]]}, L, 0)
 
     return Case(cname, body, goals, family="product_fix_own_variable", params=dict(dependent=dependent, what=what), **_BOUNDS)
@@ -723,7 +723,7 @@ def cases(tier):
                     continue
                 cs.append(repeated_case(name, mk, info, what))
         # original unchanged, necessary variables
-        for fix in (subsets if not quick else subsets[-1:]):
+        for fix in (subsets if not quick else ([subsets[0], subsets[-1]] if len(subsets) > 1 else subsets)):
             cs.append(unchanged_case(name, mk, info, fix))
         cs.append(necessary_case(name, mk, info, set(), "set"))
         cs.append(necessary_case(name, mk, info, set(), "exact"))
